@@ -298,3 +298,8 @@ def run_case(case):
     probes = {"retry_requeued_behind_other_caller": requeued, "callers_overlapping": overlap_in_time,
               "requests": len(results), "fragments_composed": sum(1 for i in complete if txs[i]["f"]["k"] == "frag")}
     return C.package(world, case, violations, sig, nontrivial, probes)
+
+
+def evidence_extra(tier):
+    return {"systematic_cases": len(_sweep(tier)), "seeded_cases": N_RANDOM[tier],
+            "systematic_part": "2 callers x 8 start offsets x all fault scripts of depth %d over 4 symbols x 12 configurations" % SW_DEPTH[tier]}
